@@ -77,6 +77,17 @@ func Generate(r *sim.Rng, prop, tier string, idx int) *sim.Case {
 	default:
 		genC07(g, c, tier)
 	}
+	if r.Chance(1, 6) {
+		// stalled threads: a goroutine that could run (here: a caller inside WaitForVersionChange)
+		// does not get a processor for a while
+		c.Sched.StallPermille = sim.Pick(r, 3, 20, 60)
+		c.Sched.StallMaxNs = int64(sim.Pick(r, time.Millisecond, 50*time.Millisecond, 2*time.Second))
+	}
+	if c.Mode == "expwait" && r.Chance(1, 2) {
+		// waiters pass few scheduling points: stall them often, and for longer than a record lives
+		c.Sched.StallPermille = 300
+		c.Sched.StallMaxNs = int64(sim.Pick(r, 50*time.Millisecond, 500*time.Millisecond, 5*time.Second))
+	}
 	return c
 }
 
@@ -97,6 +108,9 @@ func (g *gen) expiryFar() int64 {
 func (g *gen) casRef(weights ...int) int64 {
 	if g.r.Chance(1, 8) {
 		return int64(3 + g.r.Intn(3))
+	}
+	if g.r.Chance(1, 12) {
+		return 6 // the zero value: a record whose Version was never filled in
 	}
 	return int64(weights[g.r.Intn(len(weights))])
 }
@@ -574,6 +588,10 @@ func genExpWait(g *gen, c *sim.Case) {
 		// a writer replaces the record right around its expiry instant (no expiry /
 		// a later one): the fresh record must survive whatever the parked waiters do
 		off := time.Duration(r.Intn(41)-20) * time.Duration(c.Sched.MaxJitter) / 4
+		if r.Chance(1, 3) {
+			// ... or well before it: whoever still acts on the old expiry instant afterwards is wrong
+			off = -d / time.Duration(sim.Pick(r, 2, 4))
+		}
 		t := sim.Task{Name: "m1"}
 		t.Ops = append(t.Ops, sim.Op{K: "jump", D: int64(d + off)})
 		t.Ops = append(t.Ops, sim.Op{K: "put", S: "a", V: "x2", D: int64(sim.Pick(r, 0, time.Hour))})
@@ -668,7 +686,7 @@ func genC07(g *gen, c *sim.Case, tier string) {
 		n := 1 + r.Intn(3)
 		for i := 0; i < n; i++ {
 			k := keys[r.Intn(len(keys))]
-			op := sim.Op{K: "wait", S: k, N: int64(sim.Pick(r, 0, 0, 0, 1, 2))}
+			op := sim.Op{K: "wait", S: k, N: int64(sim.Pick(r, 0, 0, 0, 0, 0, 0, 1, 1, 2, 2, 6))}
 			switch r.Intn(8) {
 			case 0:
 				op.E, op.F = 0, true // cancelled before the call
